@@ -2,21 +2,31 @@ import MJ.Proofs.EvalFrame
 import MJ.Proofs.StmtSim
 import MJ.Proofs.DiscardSim
 import MJ.Proofs.C03Tables
+import MJ.Proofs.ArgBind
 import MJ.Model.VmM
 /-!
 # C03 — core constructs render according to the documented semantics
 
-Stage 3 (partial): `vm_refines_eval_partial` — the model VM running the code of the model code
-generator refines the reference semantics on the fragment `Fragment`: text, `{{ e }}`, `set`
-(with unpacking), set-blocks and filter-blocks with filter chains, `if`/`elif`/`else`, `with`,
+Stage 3: `vm_refines_eval` — the model VM running the code of the model code generator refines the
+reference semantics on the fragment `MJ.Compile.CoreFragment`: text, `{{ e }}`, `set` (with
+unpacking), set-blocks and filter-blocks with filter chains, `if`/`elif`/`else`, `with`,
 `for … if … else` with unpacking targets and loop filter, `break` and `continue` (also out of
-`with` / capture scopes); expressions with constant folding, short-circuit `and`/`or`, conditional
-expressions, filters, tests, attribute/item access, list and map literals, chained comparisons —
-every construct of the modelled language except macros, call blocks and calls.  `C03_full` states
-the theorem for everything the model generator compiles, on the extended model VM `MJ.VmM` (macro
-objects with closures, `prepare_args`, the live loop object); beyond the fragment it is *checked*
-on every generated program (extended model VM vs. `exec` vs. the engine, model code vs. the real
-instruction stream) but not proved.
+`with` / capture scopes), **macro declarations** (at any depth: in loops, in `with`, in macro bodies;
+the closure machinery `Enclose` / `GetClosure` / `BuildMacro` with its write-through cells against the
+by-reference scoping of the reference semantics) with **parameter defaults**, **macro calls with
+positional and keyword arguments** (`Macro::prepare_args`, the `Kwargs` bundle, the callee's fresh
+context, its captured output), **call blocks** and the **`caller`** of a macro (the hidden keyword
+argument, `caller(args)` with positional and keyword arguments, call blocks with parameters and
+defaults); expressions with constant folding, short-circuit `and`/`or`, conditional expressions,
+filters, tests, attribute/item access, list and map literals, chained comparisons.  What the
+fragment still excludes (`wfStmt` / `wfExpr` say it precisely): parameter defaults that contain a
+call or read a parameter (`wfDefault`; the engine binds parameters back to front, the reference
+semantics front to back), macros used as values (`{{ m }}`, a macro passed as an argument: macro names
+are only called or tested with `is defined` / `is undefined`), an explicit `caller=` keyword argument, calls of names that
+are not declared macros, reads inside a macro body that `find_macro_closure` does not enclose.
+`C03_full` states the theorem for everything the model generator compiles, on the extended model VM
+`MJ.VmM` (the live loop object); beyond the fragment it is *checked* on every generated program
+(model VMs vs. `exec` vs. the engine, model code vs. the real instruction stream) but not proved.
 
 Stage 1: laws of the reference semantics `MJ.Eval.exec` (`MJ/Model/Eval.lean`).  Each law is an
 unbounded theorem (all programs / bodies / lists / states / fuel values) and is followed by an
@@ -284,6 +294,92 @@ theorem iteration_scope (n : Nat) (ctx : Scope) (stack : List Nat) (σ : State) 
     | ok r => obtain ⟨σ2, fl⟩ := r; cases fl <;> rfl
 
 
+/-! ## Argument binding of macros and call-block callers (`Macro::prepare_args`)
+
+`bindArgs params usesCaller pos kw` is the binder of the reference semantics (`MJ/Model/Eval.lean`:
+parameter names, positional values, keyword values → value of every parameter + hidden `caller`, or
+`TooManyArguments`), `slotOf` decides between the bound value and the default.  `callValue` (a macro
+call, a `caller(…)` call) goes through both.  The engine's binder is compared with them on the
+exhaustive box of `harness/src/bin/c03_args.inc`. -/
+
+/-- **An explicitly passed value — whatever it is, `none` included — is bound as it is**: when the
+call is accepted, parameter `i` holds the positional value number `i` if there is one, else the
+keyword value of its name; the value is not looked at. -/
+theorem arg_explicit_value_bound_as_is {params uc pos kw bound c}
+    (h : bindArgs params uc pos kw = .ok (bound, c)) (i : Nat) (p : String) (hp : params[i]? = some p) :
+    (∀ v, pos[i]? = some v → bound[i]? = some (p, v)) ∧
+    (∀ v, pos[i]? = none → assocGet p kw = some v → bound[i]? = some (p, v)) ∧
+    (pos[i]? = none → assocGet p kw = none → bound[i]? = some (p, .undef)) := by
+  simp only [bindArgs] at h
+  split at h
+  · simp at h
+  · rename_i b hb
+    split at h
+    · simp at h
+    · simp at h
+      obtain ⟨rfl, _⟩ := h
+      have := MJ.ArgBind.bindParams_getElem? params pos kw b hb i p hp
+      refine ⟨fun v hv => ?_, fun v hn hk => ?_, fun hn hk => ?_⟩ <;>
+        simp [MJ.ArgBind.boundValue, *] at this <;> exact this
+
+/-- **The default is evaluated iff the parameter is missing or undefined**: the body sees the
+default of a parameter exactly when the parameter is bound to `undef` (nothing passed, or an
+undefined value passed) and has a default; `none`, `false`, `0`, `""`, `[]` are kept. -/
+theorem arg_default_iff_missing_or_undefined (v : Val) (dflt : Option Expr) (d : Expr) :
+    (slotOf v dflt = .dflt d ↔ v = .undef ∧ dflt = some d) ∧
+    (v ≠ .undef → slotOf v dflt = .passed v) ∧ slotOf v none = .passed v :=
+  ⟨MJ.ArgBind.slotOf_dflt_iff v dflt d, MJ.ArgBind.slotOf_passed_of_ne_undef v dflt, MJ.ArgBind.slotOf_no_default v⟩
+
+/-- … and the default expression is evaluated (at call time, in the macro's scope) exactly in that
+case: binding one parameter is "evaluate the default, store it" or "store the bound value". -/
+theorem arg_default_evaluated_iff_used (n : Nat) (ctx : Scope) (heap : Heap) (cell : Nat) (st : List Nat)
+    (params : List String) (defaults : List Expr) (i : Nat) (p : String) (v : Val) (rest : List (String × Val)) :
+    bindDefaults (n + 1) ctx heap (cell :: st) params defaults i ((p, v) :: rest) =
+      match slotOf v (defaultOf params defaults i) with
+      | .dflt d => (evalExpr n ctx heap (cell :: st) d).bind fun dv =>
+          bindDefaults n ctx (heapSet heap cell p dv) (cell :: st) params defaults (i + 1) rest
+      | .passed w => bindDefaults n ctx (heapSet heap cell p w) (cell :: st) params defaults (i + 1) rest := by
+  simp only [bindDefaults, topCell]
+  cases slotOf v (defaultOf params defaults i) with
+  | passed w => rfl
+  | dflt d =>
+    simp only [Except.bind]
+    cases evalExpr n ctx heap (cell :: st) d <;> rfl
+
+/-- **Positional and keyword passing of the same value bind the same**: one more positional value
+`v` is the same call as `p=v` for the next free parameter `p`. -/
+theorem arg_positional_eq_keyword (params : List String) (uc : Bool) (pos : List Val) (kw : List (String × Val))
+    (p : String) (v : Val) (hnd : params.Nodup) (hp : params[pos.length]? = some p)
+    (hk : assocGet p kw = none) (hc : p ≠ "caller") :
+    bindArgs params uc (pos ++ [v]) kw = bindArgs params uc pos (kw ++ [(p, v)]) :=
+  MJ.ArgBind.bindArgs_pos_eq_kw params uc pos kw p v hnd hp hk hc
+
+/-- **Every keyword is either consumed or an error**: in an accepted call every keyword names a
+parameter that was not filled by position, and that parameter holds the keyword's value — or it is
+the hidden `caller` of a macro that refers to `caller`. -/
+theorem arg_keyword_consumed_or_error {params uc pos kw bound c}
+    (h : bindArgs params uc pos kw = .ok (bound, c)) (k : String) (v : Val) (hm : (k, v) ∈ kw) :
+    (∃ i w, params[i]? = some k ∧ pos.length ≤ i ∧ assocGet k kw = some w ∧ bound[i]? = some (k, w)) ∨
+      (uc = true ∧ k = "caller") :=
+  MJ.ArgBind.bindArgs_keywords_consumed h k v hm
+
+/-- the error cases, exactly: too many positional values, a parameter filled by position and named
+by a keyword (duplicate — whatever the keyword's value), an unknown keyword -/
+theorem arg_error_iff (params : List String) (uc : Bool) (pos : List Val) (kw : List (String × Val)) :
+    bindArgs params uc pos kw = .error .tooManyArgs ↔
+      (params.length < pos.length ∨ (∃ i p, i < pos.length ∧ params[i]? = some p ∧ (assocGet p kw).isSome) ∨
+        ∃ k v, (k, v) ∈ kw ∧ k ∉ params ∧ ¬ (uc = true ∧ k = "caller")) :=
+  MJ.ArgBind.bindArgs_error_iff params uc pos kw
+
+/-- the model VM's `Macro::prepare_args` (`MJ.Vm.prepareArgs`: the last value of a call is the
+keyword bundle) is the binder of the reference semantics -/
+theorem vm_prepare_args_is_bindArgs (spec : List String) (cref : Bool) (pos : List Val) (kw : List (String × Val)) :
+    MJ.Vm.prepareArgs spec cref (pos ++ [.kwargs kw]) =
+      (bindArgs spec cref pos kw).map (fun r => (r.1.map (·.2), r.2)) ∧
+    ((∀ kvs, pos.getLast? ≠ some (.kwargs kvs)) →
+      MJ.Vm.prepareArgs spec cref pos = (bindArgs spec cref pos []).map (fun r => (r.1.map (·.2), r.2))) :=
+  ⟨MJ.ArgBind.prepareArgs_kwargs spec cref pos kw, MJ.ArgBind.prepareArgs_positional spec cref pos⟩
+
 /-! ## Refinement: compiled code on the VM vs. the reference semantics -/
 
 /-- The full statement: for every template the model code generator compiles (macros, call blocks
@@ -294,36 +390,72 @@ def C03_full : Prop :=
     MJ.Compile.compileTemplate prog = some code → renderTemplate fuel ctx prog = .ok out →
     ∃ k, ∀ j, MJ.VmM.renderCodeM (k + j) ctx code = .ok out
 
-/-- the proved part: templates of `MJ.Vm.Fragment` (everything but macros, call blocks and calls),
-on the macro-free model VM `MJ.Vm` (the extended VM `MJ.VmM` agrees with it on every generated
-program of the fragment) -/
-theorem vm_refines_eval_partial (prog : List Stmt) (hfrag : MJ.Vm.Fragment prog) (ctx : Scope)
+/-- **The refinement theorem.**  For every template of `MJ.Compile.CoreFragment` (see the head of this
+file: everything but defaults that call or read parameters and macros used as values) and every render
+context of plain data (`undefined`, `none`, booleans, integers, strings, lists, maps), whatever the
+reference semantics renders, the model VM `MJ.Vm` renders on the code the model code generator emits —
+macro declarations with closures and defaults, macro calls with positional and keyword arguments, call
+blocks and `caller` included. -/
+theorem vm_refines_eval (prog : List Stmt) (hfrag : MJ.Compile.CoreFragment prog) (ctx : Scope)
+    (hctx : MJ.Vm.CtxPlain ctx)
     (code : List MJ.Compile.Instr) (hcode : MJ.Compile.compileTemplate prog = some code) (fuel : Nat)
     (out : String) (hev : renderTemplate fuel ctx prog = .ok out) :
     ∃ k, ∀ j, MJ.Vm.renderCode (k + j) ctx code = .ok out :=
-  MJ.Vm.vm_refines_eval_partial prog hfrag ctx code hcode fuel out hev
+  MJ.Vm.vm_refines_eval prog hfrag ctx hctx code hcode fuel out hev
 
 /-- expressions: the code the back-patching generator appends for `e` makes the VM push the value
-of `e` (constant folding, short-circuit `and` / `or`, `if` expressions, filters, tests, …) -/
-theorem compileExpr_correct {n e ctx heap stack v} (hev : evalExpr n ctx heap stack e = .ok v)
-    (hs : MJ.Compile.simpleExpr e = true) (g : MJ.Compile.CG) (post : List MJ.Compile.Instr)
-    (hoof : (MJ.Compile.cExpr e g).oof = false) {s : MJ.Vm.VmState} (hpc : s.pc = g.next)
-    (henv : MJ.Vm.EnvRel ctx heap stack s.frames) :
-    MJ.Vm.Reach ctx ((MJ.Compile.cExpr e g).code ++ post) s
-      { s with pc := (MJ.Compile.cExpr e g).next, stack := v :: s.stack } :=
-  MJ.Vm.compileExpr_correct hev hs g post hoof hpc henv
+of `e` (constant folding, short-circuit `and` / `or`, `if` expressions, filters, tests, macro calls
+with positional and keyword arguments, …); `E` = where the expression stands (cells, closures, what
+may be read), `E.ok s` = the VM state mirrors it -/
+theorem compileExpr_correct {n e v} (E : MJ.Vm.ECtx) (hev : evalExpr n E.K.ctx E.heap (E.loc ++ E.env) e = .ok v)
+    (hwf : MJ.Compile.wfExpr E.K.M E.P E.A e = true) (g : MJ.Compile.CG) (post : List MJ.Compile.Instr)
+    (hC : E.K.C = (MJ.Compile.cExpr e g).code ++ post)
+    (hoof : (MJ.Compile.cExpr e g).oof = false) {s : MJ.Vm.VmState} (hpc : s.pc = g.next) (hok : E.ok s) :
+    MJ.Vm.Pushed E s (MJ.Compile.cExpr e g).next (v :: s.stack) :=
+  MJ.Vm.compileExpr_correct E hev hwf g post hC hoof hpc hok
+
+/-- a macro call (`Macro::call`): for a macro value `w` of the reference semantics and the macro object
+`u` of the VM that mirrors it, the VM binds the arguments with `prepare_args` (`ArgsRel`: the same plain
+data, and — for a call block — corresponding `caller` macros), evaluates the defaults, runs the macro's
+code in a fresh context up to its `Return`, and the captured output is the value of the call -/
+theorem macro_call_correct (n : Nat) (K : MJ.Vm.Cfg) (G : MJ.Vm.Ghost) (heap : Heap) (cls : List Scope) (w u : Val)
+    (as : List (Option String × Val)) (args : List Val) (v : Val)
+    (hcall : callValue n K.ctx heap w as = .ok v) (hrel : MJ.Vm.MacroRel K G cls heap.length u w)
+    (hargs : MJ.Vm.ArgsRel K G cls heap.length as args) (hinv : MJ.Vm.GInv K G heap cls)
+    (hplain : PlainSt K.M K.ctx heap) :
+    ∃ nm spec off clo cref vals caller s1, u = .vmMacro nm spec off clo cref ∧
+      MJ.Vm.prepareArgs spec cref args = .ok (vals, caller) ∧
+      MJ.Vm.Reach K.ctx K.C (MJ.Vm.calleeState off clo caller vals cls) s1 ∧ K.C[s1.pc]? = some .return_ ∧
+      v = .str (s1.outs.getLast?.getD "") ∧ MJ.Vm.Ext cls s1.closures :=
+  (MJ.Vm.all_sim n n (Nat.le_refl _)).2.1 K G heap cls w u as args v hcall hrel hargs hinv hplain
+
+/-- the values that flow through expressions of the fragment are plain data (no macro, no keyword
+bundle, no other engine object), provided the render context and the variables hold plain data: macro
+values only sit in variables with macro names, which are only called -/
+theorem expr_value_plain {M : List String} {ctx : Scope} {heap : Heap} {st : List Nat} (hp : PlainSt M ctx heap)
+    {P A} (n : Nat) (e : Expr) (v : Val) (hwf : MJ.Compile.wfExpr M P A e = true)
+    (hev : evalExpr n ctx heap st e = .ok v) : plain v = true :=
+  evalExpr_plain hp n e v hwf hev
+
+/-- … so that a positional argument of a call is never taken for the keyword-argument bundle of
+`Value::call`'s calling convention -/
+theorem plain_args_are_positional {as : List (Option String × Val)} (h : ∀ v, v ∈ (splitArgs as).1 → plain v = true) :
+    callArgs as = ((splitArgs as).1, (splitArgs as).2) :=
+  callArgs_plain h
 
 /-- the other entry form: `prog` is the top level of a child template / of an imported module —
-its output is discarded (`Output::begin_capture(Discard)`), its assignments persist — and `tail` the
-layout / importing template that reads them (`renderAfter`).  The model VM runs the code of `prog`
-with a discarding output and the rest with a fresh one; captures begun under the discarding output
-(`{% set x %}…{% endset %}`, filter blocks) still record what is written into them. -/
-theorem vm_refines_eval_discard (prog tail : List Stmt) (hfrag : MJ.Vm.Fragment (prog ++ tail)) (ctx : Scope)
+its output is discarded (`Output::begin_capture(Discard)`), its assignments and the macros it declares
+persist — and `tail` the layout / importing template that reads / calls them (`renderAfter`).  The
+model VM runs the code of `prog` with a discarding output and the rest with a fresh one; captures begun
+under the discarding output (`{% set x %}…{% endset %}`, filter blocks, macro calls) still record what
+is written into them. -/
+theorem vm_refines_eval_discard (prog tail : List Stmt) (hfrag : MJ.Compile.CoreFragment (prog ++ tail)) (ctx : Scope)
+    (hctx : MJ.Vm.CtxPlain ctx)
     (code : List MJ.Compile.Instr) (hcode : MJ.Compile.compileTemplate (prog ++ tail) = some code)
     (fuel : Nat) (out : String) (hev : renderAfter fuel ctx prog tail = .ok out) :
     ∃ codeP, MJ.Compile.compileTemplate prog = some codeP ∧
       ∃ k, ∀ j, MJ.Vm.renderCodeAfter (k + j) ctx code codeP.length = .ok out :=
-  MJ.Vm.vm_refines_eval_discard prog tail hfrag ctx code hcode fuel out hev
+  MJ.Vm.vm_refines_eval_discard prog tail hfrag ctx hctx code hcode fuel out hev
 
 /-- a run with a discarding output goes through the same program counters, operand stacks, frames
 and capture buffers (above the bottom entry) as the ordinary run -/
@@ -339,20 +471,22 @@ theorem asConst_sound {e : Expr} {v : Val} (h : MJ.Compile.asConst e = .val v) (
   MJ.Compile.asConst_sound h n ctx heap stack
 
 /-- the back-patching generator (absolute targets patched through `pending`) emits exactly the
-structured code with resolved targets; inside a loop (`lc`) the `break` jumps of the block are
+structured code with resolved targets — for the whole core fragment `coreBlock`: every statement form,
+macro declarations (jump over the body, prologue with defaults, `Enclose` / `GetClosure` / `BuildMacro`)
+and call blocks, calls with positional, static and dynamic keyword arguments included; inside a loop (`lc`) the `break` jumps of the block are
 still placeholders that are recorded in the pending entry of the loop (`withBreaks`) — the loop
 patches them when it ends (`relBlock_patched`) -/
 theorem codegen_eq_structured (prog : List Stmt) (g : MJ.Compile.CG) (lc : Option MJ.Compile.LoopCtx)
-    (h : MJ.Compile.simpleBlock lc.isSome prog = true) (hc : MJ.Compile.Compat g.pending lc) :
+    (h : MJ.Compile.coreBlock lc.isSome prog = true) (hc : MJ.Compile.Compat g.pending lc) :
     MJ.Compile.cBlock prog g =
       (g.extend (MJ.Compile.relBlock prog g.next g.aux (MJ.Compile.setExit 0 lc)).1).withBreaks
         (MJ.Compile.relBlock prog g.next g.aux (MJ.Compile.setExit 0 lc)).2 :=
-  MJ.Compile.cBlock_eq_rel prog g lc h hc
+  MJ.Compile.cBlock_eq_core prog g lc h hc
 
 /-- a whole template: no placeholders are left -/
-theorem codegen_eq_structured_top (prog : List Stmt) (h : MJ.Compile.simpleBlock false prog = true) :
+theorem codegen_eq_structured_top (prog : List Stmt) (h : MJ.Compile.coreBlock false prog = true) :
     MJ.Compile.cBlock prog {} = ({} : MJ.Compile.CG).extend (MJ.Compile.relBlock prog 0 {} none).1 := by
-  have h' := MJ.Compile.cBlock_eq_rel prog {} none h trivial
+  have h' := MJ.Compile.cBlock_eq_core prog {} none h trivial
   rw [h', MJ.Compile.CG.withBreaks_eq]
   simp [MJ.Compile.foldl_addBreakJump_nil, MJ.Compile.CG.extend, MJ.Compile.CG.next, MJ.Compile.setExit]
 
@@ -406,6 +540,41 @@ example : run [
     .forS (.tuple [.var "k", .var "v"]) (.list [.list [ci 1, .const (.str "x")]]) none [.emit (.var "v"), .emit (.var "k")] []]
     = some "12<1>396x1" := by decide +kernel
 
+/-- argument binding: `m(a=none)` binds `none` (no default), `m(none)` the same; `m(1, a=none)` is a
+duplicate argument; an undefined keyword value takes the default; `caller` is a keyword of its own -/
+example : bindArgs ["a", "b"] false [] [("a", .none)] = .ok ([("a", .none), ("b", .undef)], none) := by
+  simp [bindArgs, bindParams, assocGet]
+example : bindArgs ["a", "b"] false [.none] [] = bindArgs ["a", "b"] false [] [("a", .none)] := by
+  simp [bindArgs, bindParams, assocGet]
+example : bindArgs ["a", "b"] false [.int 1] [("a", .none)] = .error .tooManyArgs := by
+  simp [bindArgs, bindParams, assocGet]
+example : bindArgs ["a"] false [] [("zz", .int 1)] = .error .tooManyArgs := by
+  simp [bindArgs, bindParams, assocGet]
+example : bindArgs ["a"] true [] [("caller", .int 5)] = .ok ([("a", .undef)], some (.int 5)) := by
+  simp [bindArgs, bindParams, assocGet]
+example : slotOf .none (some (ci 1)) = .passed .none ∧ slotOf .undef (some (ci 1)) = .dflt (ci 1) ∧
+    slotOf (.bool false) (some (ci 1)) = .passed (.bool false) := by simp [slotOf]
+/-- hypotheses of `arg_positional_eq_keyword` / `arg_keyword_consumed_or_error` / `arg_explicit_value_bound_as_is` hold for … -/
+example : bindArgs ["a", "b"] false ([.int 1] ++ [.none]) [] = bindArgs ["a", "b"] false [.int 1] ([] ++ [("b", .none)]) :=
+  arg_positional_eq_keyword ["a", "b"] false [.int 1] [] "b" .none (by decide) (by decide) (by simp [assocGet]) (by decide)
+example : bindArgs ["a", "b"] false [.int 1] [("b", .none)] = .ok ([("a", .int 1), ("b", .none)], none) := by
+  simp [bindArgs, bindParams, assocGet]
+example : ∃ i w, ["a", "b"][i]? = some "b" ∧ [Val.int 1].length ≤ i ∧ assocGet "b" [("b", Val.none)] = some w ∧
+    [("a", Val.int 1), ("b", Val.none)][i]? = some ("b", w) := by
+  have h : bindArgs ["a", "b"] false [.int 1] [("b", .none)] = .ok ([("a", .int 1), ("b", .none)], none) := by
+    simp [bindArgs, bindParams, assocGet]
+  simpa using arg_keyword_consumed_or_error h "b" .none (by simp)
+/-- `{% macro m(a=1, b='x') %}[{{ a }}|{{ b }}]{% endmacro %}{{ m(a=none) }}{{ m(none, none) }}{{ m(2, b=none) }}{{ m(a=u) }}` -/
+example : run [.macroS "m" ["a", "b"] [ci 1, .const (.str "x")] [.text "[", .emit (.var "a"), .text "|", .emit (.var "b"), .text "]"] false,
+    .emit (.call (.var "m") [(some "a", .const .none)]), .emit (.call (.var "m") [(none, .const .none), (none, .const .none)]),
+    .emit (.call (.var "m") [(none, ci 2), (some "b", .const .none)]), .emit (.call (.var "m") [(some "a", .var "u")])]
+    = some "[None|x][None|None][2|None][1|x]" := by decide +kernel
+/-- … and the model VM on the compiled code renders the same -/
+example : ((MJ.Compile.compileTemplate [.macroS "m" ["a", "b"] [ci 1, .const (.str "x")] [.text "[", .emit (.var "a"), .text "|", .emit (.var "b"), .text "]"] false,
+    .emit (.call (.var "m") [(some "a", .const .none)]), .emit (.call (.var "m") [(none, .const .none), (none, .const .none)]),
+    .emit (.call (.var "m") [(none, ci 2), (some "b", .const .none)]), .emit (.call (.var "m") [(some "a", .var "u")])]).bind fun code =>
+    (MJ.VmM.renderCodeM 1000 [] code).toOption) = some "[None|x][None|None][2|None][1|x]" := by decide +kernel
+
 /-- an instance of the hypotheses of `set_in_if_persists` / `set_toplevel_persists` -/
 example : ∃ σ', exec 6 [] [0] { heap := [[]], out := "" }
       (.ifS (.const (.bool true)) [.set (.var "x") (ci 3)] []) = .ok (σ', .normal) ∧
@@ -413,7 +582,7 @@ example : ∃ σ', exec 6 [] [0] { heap := [[]], out := "" }
   set_in_if_persists (m := 2) (cv := .bool true) (by rfl) (by rfl) (by rfl) (by decide)
 
 /-- a template of the fragment with short-circuit operators, constant folding, an `if` expression,
-`elif`, loop filters, `break` and `continue`: hypotheses of `vm_refines_eval_partial` hold, and the VM indeed renders the same -/
+`elif`, loop filters, `break` and `continue`: hypotheses of `vm_refines_eval` hold, and the VM indeed renders the same -/
 private def fragProg : List Stmt :=
   [.set (.var "x") (.binop .add (ci 2) (ci 3)),
    .ifS (.binop .and (.var "x") (.binop .gt (.var "x") (ci 9))) [.text "big"]
@@ -445,13 +614,95 @@ private def fragProg : List Stmt :=
      [.text "never"],
    .forS (.var "b") (.list [ci 1, ci 2]) (some (.binop .gt (.var "b") (ci 1))) [.breakS] [.text "E"]]
 
-example : MJ.Compile.simpleBlock false fragProg = true := by decide +kernel
+example : MJ.Compile.CoreFragment fragProg := by decide +kernel
 example : (MJ.Compile.compileTemplate fragProg).isSome = true := by decide +kernel
 example : (renderTemplate defaultFuel [("m", .map [("k", .str "v")])] fragProg).toOption = some "OK[5, 'v']10:3,7:2,5:1.5Falsep1q2|empty|ab5xy5TrueFalse1232noneX10;X30;q3" := by
   decide +kernel
 example : ((MJ.Compile.compileTemplate fragProg).bind fun code =>
     (MJ.Vm.renderCode 1000 [("m", .map [("k", .str "v")])] code).toOption) = some "OK[5, 'v']10:3,7:2,5:1.5Falsep1q2|empty|ab5xy5TrueFalse1232noneX10;X30;q3" := by
   decide +kernel
+
+/-- macros with defaults and keyword arguments, a call block with `caller(arg)`, a closure: the program
+is in the fragment of `codegen_eq_structured` and the structured code is the generated code -/
+private def macroProg : List Stmt :=
+  [.set (.var "v") (ci 1),
+   .macroS "m" ["a", "b"] [ci 2] [.emit (.var "a"), .emit (.var "b"), .emit (.var "v"),
+      .emit (.call (.var "caller") [(none, .var "a"), (some "k", .var "b")])] true,
+   .callBlock (.var "m") [(none, ci 1), (some "b", .var "v")] ["q", "k"] [ci 0] [.text "<", .emit (.var "q"), .emit (.var "k"), .text ">"] false,
+   .emit (.call (.var "m") [(some "a", ci 3), (some "caller", .const .none)])]
+example : MJ.Compile.coreBlock false macroProg = true := by decide +kernel
+example : (MJ.Compile.compileTemplate macroProg).map (·.length) =
+    some (MJ.Compile.relBlock macroProg 0 {} none).1.1.length := by decide +kernel
+
+/-- closures: `m` reads the template-level `v` (which changes after the declaration: the closure cell is
+written through), `g` is declared in a loop body, encloses the loop variable and `m`, and calls `m` with
+a keyword argument; arguments by position, by keyword (in any order), `none` passed explicitly, a
+missing argument that gets its default — evaluated at call time, reading the enclosed `v`.  The hypotheses of `vm_refines_eval` hold, and the VM indeed renders the same:
+`{% set v = 1 %}{% macro m(a, b=v + 100) %}[{{ a }}|{{ b }}|{{ v }}]{% endmacro %}{% for i in [1, 2] %}{% macro g(x) %}{{ x }}{{ i }}{{ m(x, b=i) }}{% endmacro %}{{ g(i * 10) }}{% set v = 5 %}{% endfor %}{{ m(b=2, a=none) }}{% set v = 7 %}{{ m(1) }}{{ g is defined }}{{ m is defined }}` -/
+private def closProg : List Stmt :=
+  [.set (.var "v") (ci 1),
+   .macroS "m" ["a", "b"] [.binop .add (.var "v") (ci 100)] [.text "[", .emit (.var "a"), .text "|", .emit (.var "b"), .text "|", .emit (.var "v"), .text "]"] false,
+   .forS (.var "i") (.list [ci 1, ci 2]) none
+     [.macroS "g" ["x"] [] [.emit (.var "x"), .emit (.var "i"), .emit (.call (.var "m") [(none, .var "x"), (some "b", .var "i")])] false,
+      .emit (.call (.var "g") [(none, .binop .mul (.var "i") (ci 10))]), .set (.var "v") (ci 5)] [],
+   .emit (.call (.var "m") [(some "b", ci 2), (some "a", .const .none)]),
+   .set (.var "v") (ci 7),
+   .emit (.call (.var "m") [(none, ci 1)]),
+   .emit (.test "defined" (.var "g") []), .emit (.test "defined" (.var "m") [])]
+example : MJ.Compile.CoreFragment closProg := by decide +kernel
+example : MJ.Vm.CtxPlain [] := by intro x v h; cases h
+example : MJ.Vm.CtxPlain [("m", .map [("k", .str "v")]), ("xs", .list [.int 1, .none])] := by
+  intro x v h; simp only [assocGet] at h; split at h
+  · cases h; decide
+  · split at h
+    · cases h; decide
+    · cases h
+example : (MJ.Compile.compileTemplate closProg).map (·.length) = some 74 := by decide +kernel
+example : (renderTemplate defaultFuel [] closProg).toOption = some "101[10|1|1]202[20|2|1][None|2|1][1|107|7]FalseTrue" := by
+  decide +kernel
+example : ((MJ.Compile.compileTemplate closProg).bind fun code =>
+    (MJ.Vm.renderCode 1000 [] code).toOption) = some "101[10|1|1]202[20|2|1][None|2|1][1|107|7]FalseTrue" := by
+  decide +kernel
+
+example : callArgs [(none, .int 1), (none, .map [("a", .int 2)])] = ([.int 1, .map [("a", .int 2)]], []) :=
+  plain_args_are_positional (by intro v hv; simp [splitArgs] at hv; rcases hv with rfl | rfl <;> decide)
+/-- (a keyword bundle as last positional value — what a caller from Rust passes — *is* taken for the keyword arguments) -/
+example : callArgs [(none, .int 1), (none, .kwargs [("a", .int 2)])] = ([.int 1], [("a", .int 2)]) := by
+  simp [callArgs, splitArgs]
+
+/-- call blocks and `caller`: `box` calls its `caller` with a positional and a keyword argument; the first
+call block has two parameters, the second a parameter with a default and stands in a loop (its body reads
+the loop variable: the `caller` macro is a closure); `w` is passed by default and by keyword:
+`{% macro box(title, w=2) %}<{{ title }}:{{ w }}>{{ caller(title, k=w) }}</>{% endmacro %}{% set v = 3 %}{% call(t, k) box("a") %}[{{ t }}{{ k }}{{ v }}]{% endcall %}{% for i in [1, 2] %}{% call(t, k=9) box(i, w=i * 10) %}{{ t }}-{{ k }}-{{ i }}{% endcall %}{% endfor %}` -/
+private def cbProg : List Stmt :=
+  [.macroS "box" ["title", "w"] [ci 2]
+     [.text "<", .emit (.var "title"), .text ":", .emit (.var "w"), .text ">",
+      .emit (.call (.var "caller") [(none, .var "title"), (some "k", .var "w")]), .text "</>"] true,
+   .set (.var "v") (ci 3),
+   .callBlock (.var "box") [(none, .const (.str "a"))] ["t", "k"] [] [.text "[", .emit (.var "t"), .emit (.var "k"), .emit (.var "v"), .text "]"] false,
+   .forS (.var "i") (.list [ci 1, ci 2]) none
+     [.callBlock (.var "box") [(none, .var "i"), (some "w", .binop .mul (.var "i") (ci 10))] ["t", "k"] [ci 9]
+        [.emit (.var "t"), .text "-", .emit (.var "k"), .text "-", .emit (.var "i")] false] []]
+example : MJ.Compile.CoreFragment cbProg := by decide +kernel
+example : (MJ.Compile.compileTemplate cbProg).map (·.length) = some 86 := by decide +kernel
+example : (renderTemplate defaultFuel [] cbProg).toOption = some "<a:2>[a23]</><1:10>1-10-1</><2:20>2-20-2</>" := by
+  decide +kernel
+example : ((MJ.Compile.compileTemplate cbProg).bind fun code =>
+    (MJ.Vm.renderCode 1000 [] code).toOption) = some "<a:2>[a23]</><1:10>1-10-1</><2:20>2-20-2</>" := by
+  decide +kernel
+
+/-- a macro declared at the top level of a "child template" (its own call there is discarded) is called
+from the "layout", and sees the layout's later assignment -/
+private def childM : List Stmt :=
+  [.text "dropped", .set (.var "t") (.const (.str "T")), .macroS "hd" ["x"] [] [.text "<", .emit (.var "x"), .emit (.var "t"), .text ">"] false,
+   .emit (.call (.var "hd") [(none, ci 0)])]
+private def layoutM : List Stmt :=
+  [.emit (.call (.var "hd") [(some "x", ci 1)]), .set (.var "t") (ci 2), .emit (.call (.var "hd") [(none, ci 3)])]
+example : MJ.Compile.CoreFragment (childM ++ layoutM) := by decide +kernel
+example : (renderAfter defaultFuel [] childM layoutM).toOption = some "<1T><32>" := by decide +kernel
+example : ((MJ.Compile.compileTemplate (childM ++ layoutM)).bind fun code =>
+    (MJ.Compile.compileTemplate childM).bind fun codeP =>
+    (MJ.Vm.renderCodeAfter 1000 [] code codeP.length).toOption) = some "<1T><32>" := by decide +kernel
 
 /-- a set-block at the top level of a "child template": its output is discarded, the captured value
 reaches the "layout" — in the reference semantics and on the model VM -/
